@@ -518,6 +518,8 @@ class State:
             return v[1]
         key = ('atom', v)
         if key in self.asm:
+            self.asm_hits = getattr(self, 'asm_hits', 0) + 1
+            self.last_atom = v
             return self.asm[key]
         if self.policy.atom_hint is not None:
             h = self.policy.atom_hint(v)
@@ -1671,8 +1673,21 @@ class State:
                             raise
                         continue
                 else:
+                    h0 = getattr(self, 'asm_hits', 0)
                     try:
                         cv = self.refine(self.expr(c, env))
+                        if cv[0] == 'lit' and isinstance(cv[1], bool) and getattr(self, 'asm_hits', 0) > h0:
+                            # "literal" only because this world assumed the opaque condition: the loop is symbolic.  In a
+                            # world that assumes the condition false the loop does not run; otherwise one generic iteration.
+                            if not cv[1]:
+                                return UNIT
+                            cn, negs = c, 0
+                            while cn.get('k') == 'Unary' and cn.get('op') == 'Not':
+                                cn, negs = cn['a'], negs + 1
+                            at = self.last_atom
+                            if negs % 2 == 1:
+                                at = ('un', 'Not', at)
+                            cv = ('call', 'cond', (at,))
                     except NeedSplit as ns:
                         # keep the (first undecided part of the) condition as the loop's marker
                         cn, negs = c, 0
